@@ -1,0 +1,14 @@
+//go:build verif
+
+package ast
+
+// VerifHook, when set, is called at every instrumented point. It exists only
+// in builds with the verif tag and is used by external verification harnesses
+// to yield to a controlled scheduler while a path is being rendered.
+var VerifHook func(point int) //nolint:gochecknoglobals
+
+func verifHook(point int) {
+	if h := VerifHook; h != nil {
+		h(point)
+	}
+}
